@@ -153,13 +153,13 @@ def run_rel(unit, want_trace=False):
     inc = ['-I' + os.path.join(engine.VERIF, 'cstl'), '-I' + os.path.join(engine.VERIF, 'contracts'), '-I' + unit.gen]
     res = dict(unit=unit.id, container=unit.container, function=unit.fn, maxcap=unit.maxcap, key=key, cached=False, replaced=[])
     t0 = time.time()
-    cmd1 = ['goto-cc', '-DCSTL_CBMC', '-DCSTL_DETERMINISTIC', '-DMAXCAP=%d' % unit.maxcap] + inc + ['--function', 'h_rel', os.path.join(udir, 'h.c'), '-o', os.path.join(udir, 'a.gb')]
+    cmd1 = ['goto-cc', '-DCSTL_CBMC', '-DCSTL_DETERMINISTIC', '-DMAXCAP=%d' % unit.maxcap] + inc + ['--function', 'h_rel', os.path.join(udir, 'h.c'), '-o', os.path.join(udir, 'a.%d.gb' % os.getpid())]
     rc, out, err, _ = engine.run(cmd1, timeout=120)
     if rc != 0:
         res.update(status='error', error='goto-cc: ' + (out + err)[-1500:])
         return res
     unwind = 2 * (unit.maxcap + 1) + 2
-    cmd3 = ['cbmc', os.path.join(udir, 'a.gb'), '--unwind', str(unwind), '--unwinding-assertions'] + engine.CBMC_CHECKS + ['--json-ui'] + (['--trace'] if want_trace else [])
+    cmd3 = ['cbmc', os.path.join(udir, 'a.%d.gb' % os.getpid()), '--unwind', str(unwind), '--unwinding-assertions'] + engine.CBMC_CHECKS + ['--json-ui'] + (['--trace'] if want_trace else [])
     rc, out, err, secs = engine.run(cmd3, timeout=unit.timeout, mem_kb=24000000)
     res['checker_cmd'] = ' '.join(cmd1[:3] + ['...', '--function', 'h_rel', 'h.c']) + ' && ' + ' '.join(['cbmc', 'a.gb'] + cmd3[2:])
     res['solver_s'] = round(secs, 2)
@@ -210,7 +210,7 @@ def run_rel(unit, want_trace=False):
         return res
     json.dump(res, open(resf, 'w'))
     try:
-        os.remove(os.path.join(udir, 'a.gb'))
+        os.remove(os.path.join(udir, 'a.%d.gb' % os.getpid()))
     except OSError:
         pass
     return res
